@@ -146,10 +146,8 @@ class Algebra:
         # generic: make the argument primitive (leading coefficients 1)
         ln = R.n.c[min(R.n.c)]
         ld = R.d.c[min(R.d.c)]
-        c = ln / ld
-        if c < 0:
-            raise Unsupported('square root of an expression with negative leading coefficient')
-        Rp = Rat(R.n * Poly.const(1 / ln), R.d * Poly.const(1 / ld))
+        c = abs(ln / ld)       # the sign of one coefficient says nothing about the value
+        Rp = Rat(R.n * Poly.const(1 / abs(ln)), R.d * Poly.const(1 / abs(ld)))
         pre = self._root_of_const(c)
         # perfect square of a known quantity?
         for (kind, args, sym) in self.atoms:
